@@ -43,7 +43,7 @@ Deliver, for k in 1,2:
   {OUT}/{pid}/m<k>/patch.diff   (output of `git diff` in the worktree with only that change applied; must apply cleanly with `git apply` to the unchanged tree)
   {OUT}/{pid}/m<k>/demo.py      (or demo.cpp + demo.sh)
   {OUT}/{pid}/m<k>/meta.json    {{"property": "{pid}", "summary": "...", "needs_to_manifest": "...", "files": [...], "how_run": "..."}}
-Before finishing, leave the worktree clean (`git checkout -- .`) and verify for each change: patch applies; demo passes without it and fails with it; the pytest run has the same passing set.
+Do not use `git stash` (the stash is shared between worktrees of one repository; other volunteers work in sibling worktrees). Before finishing, leave the worktree clean (`git checkout -- .`) and verify for each change: patch applies; demo passes without it and fails with it; the pytest run has the same passing set.
 
 Environment facts you need (sandbox, no network):
   * Use /venv/bin/python (3.12; numpy 2.x, sympy, scipy, scikit-learn, jinja2 installed). Run scripts with the repo root as cwd (templates are loaded from the relative path py/formak/templates/).
